@@ -877,6 +877,11 @@ func (vm *VM) xOpThrow() error {
 			}
 			vm.sp = handler.sp
 			vm.ip = pos - 1
+		} else if handler := errHandlers.last(); handler != nil &&
+			handler.catch == 0 && handler.finally == 0 {
+			// the try statement is complete, drop its consumed handler: the
+			// handlers of later try statements are addressed by their index.
+			errHandlers.pop()
 		}
 	case 1: // user
 		obj := vm.stack[vm.sp-1]
